@@ -110,11 +110,8 @@ def layer_rhs1d(ctx, configs=None):
         if not ok:
             r.cases += 1; r.disagreements.append(dict(what='stages', input=cfg, reason='implementation raised', detail=st)); continue
         # inadmissible face states (unlimited extrapolation of strong jumps) are outside every property's domain
-        if cfg['model'] in ('euler', 'nozzle', 'sw'):
-            pos = [0, 2] if cfg['model'] != 'sw' else [0]
-            if any(np.any(np.array(st[s_][k]) <= 0) for s_ in ('pL', 'pR') for k in pos):
-                r.count('skipped-inadmissible-face-state')
-                continue
+        # (decided below on the MODEL's exact face states, not on the implementation's: an implementation that returns
+        #  inadmissible face states where the model's are admissible is a disagreement, not a skipped case)
         # a characteristic inlet evaluated on an extrapolated face state can leave its regime (negative discriminant)
         if any(b.get('type') == 'insub_cbc' for b in (cfg['bcL'], cfg['bcR'])) and \
                 any(not np.all(np.isfinite(np.asarray(st[s_][k]))) for s_ in ('pL', 'pR') for k in range(mod.neq)):
@@ -158,5 +155,11 @@ def layer_rhs1d(ctx, configs=None):
         g = parse_groups(line)
         if len(g) != 6 * neq:
             r.cases += 1; r.disagreements.append(dict(what='rhs1d', input=cfg, reason='model answer has %d groups' % len(g))); continue
+        if cfg['model'] in ('euler', 'nozzle', 'sw'):
+            pos = [0, 2] if cfg['model'] != 'sw' else [0]
+            iL, iR = STAGES.index('pL'), STAGES.index('pR')
+            if any(float(x) <= 0 for si in (iL, iR) for k in pos for x in g[si * neq + k]):
+                r.count('skipped-inadmissible-face-state')
+                continue
         compare_rhs(r, cfg, st, g, neq, disc, f)
     return r
